@@ -5,6 +5,7 @@ lean/LccModel/Model/MatcherJson.lean), the translation to real matcher objects /
 reference evaluator that uses nothing but Python's own operators.
 
   Val  : None | True | False | ["i", n] | ["f", h] (the float h/2) | ["s", text] | ["l", [Val...]] | ["d", [[key, Val]...]]
+         key : "text" (a str key) | None | True | False | ["i", n] | ["f", h]   -- one dict may mix the types of its keys
   Expr : [constructor, args...]
 """
 import itertools
@@ -27,8 +28,41 @@ def to_py(v):
     if t == "l":
         return [to_py(e) for e in x]
     if t == "d":
-        return {k: to_py(e) for k, e in x}
+        return {key_to_py(k): to_py(e) for k, e in x}
     raise ValueError(v)
+
+
+def key_to_py(k):
+    """dict key syntax -> Python key (a JSON string is a str key, the other scalars use the value syntax)"""
+    return k if isinstance(k, str) else to_py(k)
+
+
+def key_class(k):
+    return "str" if isinstance(k, str) else "None" if k is None else "bool" if isinstance(k, bool) else \
+        {"i": "int", "f": "float", "s": "str"}[k[0]]
+
+
+def dict_key_classes(v):
+    """for every dict inside the value: the set of the types of its keys (used by the distribution report)"""
+    out = []
+    if isinstance(v, list) and len(v) == 2 and v[0] == "l":
+        for e in v[1]:
+            out += dict_key_classes(e)
+    elif isinstance(v, list) and len(v) == 2 and v[0] == "d":
+        out.append(frozenset(key_class(k) for k, _ in v[1]))
+        for _, e in v[1]:
+            out += dict_key_classes(e)
+    return out
+
+
+def key_feature(vals):
+    """'mixed' if some dict among the values has keys of >= 2 types, 'non-str' if some dict has a non-str key, else None"""
+    cs = [c for v in vals for c in dict_key_classes(v)]
+    if any(len(c) >= 2 for c in cs):
+        return "mixed"
+    if any(c - {"str"} for c in cs):
+        return "non-str"
+    return None
 
 
 def num_to_py(n):
@@ -38,6 +72,23 @@ def num_to_py(n):
 STRINGS = ["", "a", "b", "ab", "ba", "abc", "foo", "bar", "a b", 'q"t', "back\\slash", "li\nne", "é", "tab\t", "\x01", "A", "Ab"]
 LONG_STRINGS = ["A" * 48, "B" * 50, "ab" * 30, "x" * 101]
 KEYS = ["a", "b", "k", "foo", 'q"k', ""]
+# the other key types json.dumps accepts; "1"/"null"/"true" are what json.dumps turns 1/None/True into (distinct keys for Python)
+SCALAR_KEYS = [None, True, False, ["i", 0], ["i", 1], ["i", 2], ["i", -1], ["i", 10 ** 20], ["f", 3], ["f", -1], ["f", 2], ["f", 20]]
+MIXED_KEYS = KEYS + ["1", "null", "true"] + SCALAR_KEYS
+
+
+def gen_keys(rng, n):
+    """n (or fewer) dict keys, pairwise distinct for Python (True == 1 == 1.0 is ONE key): 65 % str keys only, else keys of
+    mixed types (str, None, bool, int, float)"""
+    if rng.random() < 0.65:
+        return rng.sample(KEYS, min(n, len(KEYS)))
+    out, seen = [], set()
+    for k in rng.sample(MIXED_KEYS, min(n + 2, len(MIXED_KEYS))):
+        pk = key_to_py(k)
+        if pk not in seen and len(out) < n:
+            seen.add(pk)
+            out.append(k)
+    return out
 
 
 def gen_str(rng, allow_long=True):
@@ -66,9 +117,9 @@ def gen_val(rng, depth=2):
     r = rng.random()
     if depth <= 0 or r < 0.55:
         return gen_scalar(rng)
-    if r < 0.82:
+    if r < 0.79:
         return ["l", [gen_val(rng, depth - 1) for _ in range(rng.choice([0, 1, 2, 2, 3, 4]))]]
-    keys = rng.sample(KEYS, rng.choice([0, 1, 2, 2, 3]))
+    keys = gen_keys(rng, rng.choice([0, 1, 2, 2, 3]))
     return ["d", [[k, gen_val(rng, depth - 1)] for k in keys]]
 
 
@@ -104,7 +155,7 @@ def gen_actual(rng, expr):
     if r < 0.85:
         k = rng.choice([1, 2, 3])
         return ["l", [rng.choice(lits) if rng.random() < 0.8 else gen_scalar(rng) for _ in range(k)]]
-    keys = rng.sample(KEYS, rng.choice([1, 2]))
+    keys = gen_keys(rng, rng.choice([1, 2]))
     return ["d", [[k, rng.choice(lits) if rng.random() < 0.8 else gen_val(rng, 1)] for k in keys]]
 
 
@@ -138,13 +189,13 @@ def gen_num(rng):
 def gen_leaf(rng):
     r = rng.random()
     if r < 0.3:
-        return [rng.choice(VALUE_LEAVES), gen_val(rng, 1)]
+        return [rng.choice(VALUE_LEAVES), gen_val(rng, rng.choice([1, 1, 2]))]
     if r < 0.42:
         return [rng.choice(NULLARY)]
     if r < 0.54:
         return [rng.choice(STRING_LEAVES), gen_str(rng)]
     if r < 0.66:
-        return [rng.choice(LIST_LEAVES), [gen_val(rng, 1) for _ in range(rng.choice([0, 1, 2, 2, 3]))]]
+        return [rng.choice(LIST_LEAVES), [gen_val(rng, rng.choice([1, 1, 2])) for _ in range(rng.choice([0, 1, 2, 2, 3]))]]
     if r < 0.74:
         return ["is_between", gen_num(rng), gen_num(rng)]
     if r < 0.82:
@@ -157,7 +208,7 @@ def gen_leaf(rng):
 def gen_arg(rng, depth):
     """an argument position that goes through is_(): a matcher expression or a plain value"""
     if rng.random() < 0.12:
-        return ["val", gen_val(rng, 1)]
+        return ["val", gen_val(rng, rng.choice([1, 1, 2]))]
     return gen_expr(rng, depth)
 
 
